@@ -5,6 +5,7 @@ package main
 
 import (
 	"fmt"
+	"sort"
 )
 
 // ---------------------------------------------------------------- twins (C02)
@@ -118,6 +119,36 @@ func (g *Gen) HistoryTwins() []E {
 	writes(3)
 	reads(3)
 	sweep()
+	// documents that lack the filtered / indexed field next to documents that hold nil there, alternating along the
+	// ids, with a second sort key that runs against the ids: sorts on (field, k) in every combination of directions
+	if free := g.freeIds(twins[0]); len(free) >= 4 {
+		sort.Strings(free)
+		if len(free) > 6 {
+			free = free[:6]
+		}
+		var docs []interface{}
+		for i, id := range free {
+			kv := []interface{}{"_id", AStr(id), "k", ANum(g.smallN[(len(free)-i)%len(g.smallN)], "i")}
+			if i%2 == 0 {
+				kv = append(kv, ffield, ANil())
+			}
+			d := AObj()
+			for j := 0; j+1 < len(kv); j += 2 {
+				d = ObjSet(d, kv[j].(string), kv[j+1].(V))
+			}
+			docs = append(docs, d)
+			g.noteInsert(twins[0], id)
+		}
+		mirror(E{"op": "Insert", "c": twins[0], "docs": docs})
+		for _, d1 := range []int{1, -1} {
+			for _, d2 := range []int{1, -1} {
+				q := []interface{}{[]interface{}{"sort", []interface{}{[]interface{}{B(ffield), d1}, []interface{}{B("k"), d2}}}}
+				mirror(E{"op": "FindAll", "c": twins[0], "q": q})
+			}
+		}
+		q := []interface{}{[]interface{}{"sort", []interface{}{[]interface{}{B(ffield), 1}, []interface{}{B("k"), 1}, []interface{}{B("_id"), 1}}}, []interface{}{"limit", 2}}
+		mirror(E{"op": "Delete", "c": twins[0], "q": q, "audit": true})
+	}
 	return evs
 }
 
@@ -197,7 +228,21 @@ func (g *Gen) HistoryBulk(size int) []E {
 	// the query: filters and/or sorts on the field being rewritten, or on another one
 	v := ANum(g.smallN[g.r.Intn(nvals)], "i")
 	var q []interface{}
-	switch g.r.Intn(7) {
+	byId := false
+	switch g.r.Intn(8) {
+	case 7: // one document, named by its _id - and a window that may leave it out
+		if size > 0 {
+			byId = true
+			q = []interface{}{[]interface{}{"where", []interface{}{"un", "eq", B("_id"), []interface{}{"lit", AStr(bulkId(g.r.Intn(size)))}}}}
+			switch g.r.Intn(4) {
+			case 0:
+				q = append(q, []interface{}{"skip", 1})
+			case 1:
+				q = append(q, []interface{}{"sort", []interface{}{[]interface{}{B("x"), 1}}}, []interface{}{"skip", 1}, []interface{}{"limit", 1})
+			case 2:
+				q = append(q, []interface{}{"limit", 0})
+			}
+		}
 	case 6: // membership in a list that names one number several times, in several representations
 		n := toInt(v[1])
 		list := make([]interface{}, 0)
@@ -273,6 +318,8 @@ func (g *Gen) HistoryBulk(size int) []E {
 	opk := g.r.Intn(9)
 	if sameChoice {
 		opk = []int{0, 2, 7, 4}[g.r.Intn(4)]
+	} else if byId && g.chance(0.6) {
+		opk = 0
 	} else if size >= 2 && size <= 64 && g.chance(0.25) {
 		// an update map without the stamp: the documents that already hold the value are selected (they
 		// count against skip and limit) although nothing shows on them
